@@ -47,6 +47,10 @@ pub(crate) fn reduce_impl(f: SigNode, depth: usize, env: &mut Uiua) -> UiuaResul
             new_shape.extend_from_slice(&shape[depth + 2..]);
             xs.shape = new_shape;
             xs.meta.take_sorted_flags();
+            if depth == 0 {
+                // The rows that the keys of a map belong to are joined together
+                xs.meta.take_map_keys();
+            }
             xs.validate();
             env.push(xs);
         }
@@ -528,6 +532,10 @@ where
             let first = arr.data[0];
             arr.data[1..].iter().copied().fold(first, f).into()
         });
+    }
+    if depth == 0 && arr.rank() > 0 {
+        // The rows that the keys of a map belong to are reduced away
+        arr.meta.take_map_keys();
     }
     let mut arr = match (arr.rank(), depth) {
         (r, d) if r == d => arr,
